@@ -27,9 +27,10 @@ Counter f_abort("fault.parse.abort");
 Counter f_env("fault.env.mutate");
 Counter f_move("fault.obj.move");
 Counter f_move_keep("fault.obj.move_source_kept_alive");
+Counter p_move_assign("probe.parser_move_assigned");
 
 const char* const NAMES[5] = { "a", "b", "ab", "x", "long-name" };
-const char* const LETTERS[5] = { "a", "b", "x", "", "ab" };
+const char* const LETTERS[6] = { "a", "b", "x", "", "ab", "A" };
 const char* const GROUPS[3] = { nullptr, "g1", "g2" };
 const char* const ENVS[3] = { "NITRO_SIM_E0", "NITRO_SIM_E1", "NITRO_SIM_E2" };
 const char* const VALUES[6] = { "v1", "v2", "7", "x=y", "two words", "" };
@@ -178,7 +179,13 @@ struct DeclResult
     bool declare_threw = false; // the declaration itself (not the modifier) raised
 };
 
-DeclResult apply_declare(no::parser& p, const Op& op)
+// group references an application obtained earlier and keeps using (also after the parser moved)
+struct GroupCache
+{
+    no::group* g[3] = { nullptr, nullptr, nullptr };
+};
+
+DeclResult apply_declare(no::parser& p, const Op& op, GroupCache* cache = nullptr)
 {
     DeclResult r;
     int kind = static_cast<int>(op.a[0] % 3), group = static_cast<int>(op.a[1] % 3), name = static_cast<int>(op.a[2] % 5);
@@ -191,7 +198,7 @@ DeclResult apply_declare(no::parser& p, const Op& op)
             switch (mod)
             {
             case M_SHORT:
-                o.short_name(LETTERS[arg % 5]);
+                o.short_name(LETTERS[arg % 6]);
                 break;
             case M_ENV:
                 o.env(ENVS[arg % 3]);
@@ -203,8 +210,12 @@ DeclResult apply_declare(no::parser& p, const Op& op)
                 break;
             }
         };
-        no::group& g = GROUPS[group] ? p.group(GROUPS[group], group == 2 ? "second group" : "") : p.group();
-        bool via_parser = group == 0 && (arg & 1);
+        bool use_cached = cache && cache->g[group] && (arg & 2);
+        no::group& g = use_cached ? *cache->g[group] :
+                       GROUPS[group] ? p.group(GROUPS[group], group == 2 ? "second group" : "") : p.group();
+        if (cache)
+            cache->g[group] = &g;
+        bool via_parser = group == 0 && (arg & 1) && !use_cached;
         if (kind == 0)
         {
             no::option& o = via_parser ? p.option(NAMES[name], "an option") : g.option(NAMES[name], "an option");
@@ -344,6 +355,7 @@ ParseResult do_parse(no::parser& p, const std::vector<std::string>& toks, const 
 struct Exec
 {
     no::parser* p = nullptr;
+    GroupCache cache;
     std::vector<no::parser*> kept; // moved-from sources kept alive until the end of the run
     DeclModel m;
     std::vector<Op> good_decls; // declaration / positional ops that succeeded, in order (for the twin)
@@ -422,7 +434,7 @@ struct Exec
                 p_redeclare_conflict++;
             else if (idx >= 0)
                 p_redeclare_same++;
-            DeclResult r = apply_declare(*p, op);
+            DeclResult r = apply_declare(*p, op, &cache);
             h.add(static_cast<uint64_t>(r.cat));
             std::string arg_s = std::string(conflict ? "conflict" : idx >= 0 ? "again" : "new") + (moves ? ",after-move" : "");
             if (r.cat == C_BADALLOC || r.cat == C_OTHER || r.cat == C_USER)
@@ -458,7 +470,7 @@ struct Exec
             bool mod_must_throw = false, mod_may_throw = false;
             if (mod == M_SHORT)
             {
-                std::string l = LETTERS[arg % 5];
+                std::string l = LETTERS[arg % 6];
                 mod_must_throw = l.size() != 1 || (!mo.letter.empty() && mo.letter != l);
                 if (!mod_must_throw)
                     mo.letter = l;
@@ -500,9 +512,18 @@ struct Exec
             bool keep = op.a[0] & 1;
             (keep ? f_move_keep : f_move)++;
             no::parser* np = nullptr;
+            bool assign = op.a[0] & 2; // move assignment into an existing parser instead of move construction
             {
                 NoFault nf;
-                np = new no::parser(std::move(*p));
+                if (assign)
+                {
+                    np = new no::parser("other", "other about", "other group");
+                    np->option("will-be-replaced");
+                    *np = std::move(*p);
+                    p_move_assign++;
+                }
+                else
+                    np = new no::parser(std::move(*p));
                 if (keep)
                     kept.push_back(p);
                 else
@@ -857,8 +878,9 @@ public:
             if (mod == M_SHORT)
             {
                 // mostly legal letters, sometimes "" / "ab", sometimes a clash
-                int l = rng.chance(1, c13 ? 4 : 10) ? 3 + static_cast<int>(rng.below(2)) : static_cast<int>(rng.below(3));
-                arg = l + 5 * static_cast<int>(rng.below(8));
+                static const int legal[] = { 0, 1, 2, 5 };
+                int l = rng.chance(1, c13 ? 4 : 10) ? 3 + static_cast<int>(rng.below(2)) : legal[rng.below(4)];
+                arg = l + 6 * static_cast<int>(rng.below(8));
             }
             op.a[4] = arg;
             // mirror (assuming the documented semantics)
@@ -877,7 +899,7 @@ public:
                 MOption& mo = m.opts[static_cast<size_t>(idx)];
                 if (mod == M_SHORT)
                 {
-                    std::string l = LETTERS[arg % 5];
+                    std::string l = LETTERS[arg % 6];
                     if (l.size() == 1 && (mo.letter.empty() || mo.letter == l))
                         mo.letter = l;
                 }
@@ -1030,7 +1052,7 @@ public:
             {
                 Op op;
                 op.kind = K_MOVE;
-                op.a[0] = rng.chance(1, 3);
+                op.a[0] = (rng.chance(1, 3) ? 1 : 0) + (rng.chance(1, 3) ? 2 : 0);
                 p.ops.push_back(op);
                 ++moves;
                 // further declarations are the interesting part after a move
